@@ -79,6 +79,7 @@ type Config struct {
 	Follow    []string      // replay: decisions to follow
 	Lenient   bool          // replay: on mismatch fall back to first enabled instead of failing
 	PCTPoints int           // expected run length for placing PCT change points
+	FineMod   int           // >0: statement-level parks in 1/FineMod of the library's functions
 }
 
 type Stats struct {
@@ -102,6 +103,7 @@ type Sched struct {
 	wake    chan struct{}
 
 	gs       sync.Map // goid -> *G
+	fine     sync.Map // function name -> selected for statement-level scheduling
 	names    map[string]int
 	anonN    map[string]int
 	rootGoid uint64
@@ -412,6 +414,29 @@ func Park(kind, site string) {
 		return
 	}
 	s.park(kind, site, true)
+}
+
+// Stmt is the statement-level scheduling point inserted before every statement
+// of the library. It parks only in runs that selected function fn for
+// fine-grained scheduling (Config.FineMod > 0 and hash(seed, fn) % FineMod == 0).
+func Stmt(fn, site string) {
+	s := cur.Load()
+	if s == nil || s.Cfg.FineMod <= 0 || s.free.Load() {
+		return
+	}
+	if !s.fineFn(fn) {
+		return
+	}
+	s.park("stmt", site, true)
+}
+
+func (s *Sched) fineFn(fn string) bool {
+	if v, ok := s.fine.Load(fn); ok {
+		return v.(bool)
+	}
+	sel := HashStr(s.Seed, "fine|"+fn)%uint64(s.Cfg.FineMod) == 0
+	s.fine.Store(fn, sel)
+	return sel
 }
 
 // Yield is a harness scheduling point; time may pass while parked here.
